@@ -60,6 +60,26 @@ class Sched(object):
         elif t.op == 'Q':
             r, st, l = ex.call('PriceLevel::update_order',
                                [h.lref, enum_const(UPDATE_KINDS.index('UpdateQuantity'), (p['id'], p['qty']))], st, pc)
+        elif t.op in 'uorf':
+            from .values import RefV as _R
+            qref = _R(h.root, (h.i_orders,))
+            if t.op == 'u':
+                r, st, l = ex.call('OrderQueue::push', [qref, p['order']], st, pc)
+            elif t.op == 'o':
+                r, st, l = ex.call('OrderQueue::pop', [qref], st, pc)
+            elif t.op == 'r':
+                r, st, l = ex.call('OrderQueue::remove', [qref, p['id']], st, pc)
+            else:
+                r, st, l = ex.call('OrderQueue::find', [qref, p['id']], st, pc)
+        elif t.op in 'PBX':
+            kind = {'P': 'UpdatePrice', 'B': 'UpdatePriceAndQuantity', 'X': 'Replace'}[t.op]
+            if t.op == 'P':
+                fields = (p['id'], p['price'])
+            elif t.op == 'B':
+                fields = (p['id'], p['price'], p['qty'])
+            else:
+                fields = (p['id'], p['price'], p['qty'], enum_const(0))
+            r, st, l = ex.call('PriceLevel::update_order', [h.lref, enum_const(UPDATE_KINDS.index(kind), fields)], st, pc)
         elif t.op == 'N':
             ids = []
             l = S.TRUE
